@@ -124,7 +124,7 @@ func init() {
 		}}
 	props["C07"] = &propDef{level: "exploration", rule: "one case = 1-3 generated HTML documents (embedding attribute x quoting x reference form x nesting x decoy text) with settings of disable-html-tag / capture-alternate-pages / disable-assets-capture / max-hops, crawled end to end under one seeded schedule; planted requisites (resolved by net/url against the page URL) must appear in the origin log before the page's seed is finished, anchors must be handed to the queue; distinct/non-trivial as for C01", assumptions: append([]string{"completeness over documents is sampled by the generator; the simulator contributes the end-to-end observation (extraction, feedback pass, normalisation, scope, fetch)"}, e2eAssumptions...), components: e2eComponents, quickRuns: 200, thorRuns: 8000,
 		gen: func(t *scen.Tape, i int, tier string) *scen.Scenario { return scen.GenHTML(t) }}
-	props["C11"] = crawlProp("exploration", crawlRule+"; at every stage boundary the item tree handed to the hook is re-checked for well-formedness with public getters, and at the finisher's decision 'complete' is compared with 'no node awaits fetching or post-processing'", 200, 8000, scen.CrawlOpts{Prop: "C11", MinSeeds: 1, MaxSeeds: 8, Faults: true, Hops: true, Adversarial: true})
+	props["C11x"] = crawlProp("exploration", crawlRule+"; at every stage boundary the item tree handed to the hook is re-checked for well-formedness with public getters, and at the finisher's decision 'complete' is compared with 'no node awaits fetching or post-processing'", 200, 8000, scen.CrawlOpts{Prop: "C11", MinSeeds: 1, MaxSeeds: 8, Faults: true, Hops: true, Adversarial: true})
 	props["C17x"] = crawlProp("exploration", crawlRule+"; at idle and after stop the metrics (total URLs crawled, finished seeds, worker gauges, mean response time) are compared with ground truth counted from hook events", 200, 6000, scen.CrawlOpts{Prop: "C17", MinSeeds: 1, MaxSeeds: 8, Faults: true, Hops: true})
 	props["C08x"] = crawlProp("exploration", crawlRule+"; every seen-store check is judged against a reference model of completed records (stamped with scheduler steps)", 200, 6000, scen.CrawlOpts{Prop: "C08", MinSeeds: 2, MaxSeeds: 8, Faults: false, Hops: true, Adversarial: true})
 	props["C09x"] = crawlProp("exploration", crawlRule+"; every canonical URL that flows through a crawl is re-rendered under other map-iteration orders, re-normalised and shape-checked", 200, 6000, scen.CrawlOpts{Prop: "C09", MinSeeds: 2, MaxSeeds: 8, Hops: true, Adversarial: true})
@@ -220,6 +220,19 @@ func init() {
 		planFn: func(p *propDef, tier string, seed uint64, n int) []*Case {
 			cases := compCases("C17", "stats", max(2, n/10), 100, seed, nil)
 			for _, c := range c17crawl.plan(tier, seed, n) {
+				c.Idx = len(cases)
+				cases = append(cases, c)
+			}
+			return cases
+		}}
+	c11crawl := props["C11x"]
+	delete(props, "C11x")
+	props["C11"] = &propDef{level: "exploration", quickRuns: 160, thorRuns: 6000, assumptions: append([]string{"component cases generate pipeline-shaped trees (duplicates only among childless nodes, internal nodes in GotChildren / GotRedirected, trees the model's own CheckConsistency accepts); exhaustive small-scope enumeration of all trees x statuses would be bounded model checking, another technique"}, e2eAssumptions...),
+		components: map[string]string{"pkg/models (Item tree, DedupeItems, CompleteAndCheck, markCompleted)": "real", "pipeline cases": "as for C01, monitor at every stage boundary"},
+		rule:       "component cases: one bubble = 6-15 random trees of up to 20 nodes (URLs from a pool of 7, so duplicates are frequent; leaf statuses over all eight states), each de-duplicated and completion-marked, with uniqueness / no-URL-lost / well-formedness / 'complete iff nothing pending' re-stated independently through public getters; pipeline cases: as for C01 with the same monitor at every stage boundary; distinct as for C09",
+		planFn: func(p *propDef, tier string, seed uint64, n int) []*Case {
+			cases := compCases("C11", "tree", max(2, n/10), 150, seed, nil)
+			for _, c := range c11crawl.plan(tier, seed, n) {
 				c.Idx = len(cases)
 				cases = append(cases, c)
 			}
